@@ -365,7 +365,7 @@ func (g *g17) lineRemove(c int) {
 // busy without being made), and it leaves the lock free. About half are batches the service rejects.
 func (g *g17) lineOneShot() {
 	c := 1 + g.r.Intn(g.ncl)
-	kind := []string{"ok", "del", "emptykey", "longkey", "badtype", "bigvalue", "scanabort"}[pick(g.r, 33, 14, 13, 13, 13, 4, 10)]
+	kind := []string{"ok", "del", "emptykey", "longkey", "badtype", "bigvalue", "scanabort", "compactfail"}[pick(g.r, 33, 14, 12, 12, 12, 4, 8, 5)]
 	g.emit("oneshot %d %s %d %d", c, kind, g.key(), 1+g.r.Intn(50))
 }
 
